@@ -33,6 +33,12 @@ func (r *readCommand) Start(ctx context.Context, ltx lcontext.LContext,
 	argc int, args []string, retries int) {
 
 	re := regex.NewNoop()
+	// argc is the length of the command string, make sure that there is a file argument at all.
+	if len(args) < 2 {
+		r.server.sendln(r.server.serverMessages, dlog.Server.Warn(r.server.user,
+			"Unable to parse command", args, argc))
+		return
+	}
 	if argc >= 4 {
 		deserializedRegex, err := regex.Deserialize(strings.Join(args[2:], " "))
 		if err != nil {
